@@ -868,7 +868,13 @@ func ruleOnce(c *Ctx) {
 				}
 				n++
 				tv := info.Types[se]
-				safe, _ := l6TypeSafe(tv.Type)
+				safe := false
+				if nt := namedOf(tv.Type); nt != nil {
+					switch typeName(nt) {
+					case "adt.Atomic", "atomic.Bool", "atomic.Int32", "atomic.Int64", "atomic.Uint32", "atomic.Uint64", "atomic.Value", "atomic.Pointer", "sync.Once", "sync.Mutex", "sync.RWMutex":
+						safe = true
+					}
+				}
 				R.Check(safe, "L7", fmt.Sprintf("%s/store(%s)", f.Name, se.Sel.Name), p.Position(as.Pos()), "atomic field",
 					fmt.Sprintf("%s assigns the plain field %s outside the sync.Once body: it races with the execution that reads (and clears) it inside once.Do", f.Name, se.Sel.Name))
 			}
